@@ -883,5 +883,47 @@ def r17_14(ctx):
     return r
 
 
+# process-wide demultiplexer loops: (spawning function, the socket wait inside the loop)
+PORT_LOOPS = {
+    "transports::ice::shared_tcp::SharedTcpPort::spawn_accept_loop": "accept",
+    "transports::ice::shared_udp::SharedUdpPort::spawn_recv_loop": "recv_from",
+}
+
+
+def r17_15(ctx):
+    """'All background tasks and sockets owned by the connection are released within bounded time': the shared passive
+    TCP / UDP ports are owned by their registrations; the last one to drop sets `shutting_down` from a synchronous Drop.
+    A loop that merely tests the flag at the top and then parks in accept() / recv_from() never sees it - the task keeps
+    the listener, and the port stays bound, until a stranger happens to connect ('a loop with an exit edge' can end; it
+    does not follow that it does). The two sibling loops must therefore race their socket wait against a future that
+    observes the flag. Decided: the spawned loop body calls the port's shutdown_signal(), whose own body reads
+    `shutting_down` and sleeps a bounded time between reads."""
+    r = RuleResult("R17.15", "K4", "the shared-port loops race their socket wait against the shutdown flag")
+    for fn, wait in sorted(PORT_LOOPS.items()):
+        fam = [nb for nb in ctx.facts.all_bodies() if nb.name.startswith(fn + "::{closure#0}")]
+        if not fam:
+            raise core.CheckerError("R17.15: spawned loop of %s not found" % fn)
+        r.scope.append(fn)
+        waits = [(nb, bi) for nb in fam for bi, t, p in nb.calls() if p and p.split("::")[-1] == wait]
+        r.need("socket wait (%s) in %s" % (wait, fn.split("::")[-1]), len(waits), 1)
+        sig = None
+        for nb in fam:
+            for bi, t, p in nb.calls():
+                if p and ctx.facts.has_body(p) and not p.startswith(fn):
+                    cand = [ctx.facts.body(p)] + [q for q in ctx.facts.all_bodies() if q.name.startswith(p + "::{closure")]
+                    reads = any(core.atomic_sites(q, "shutting_down", "load") for q in cand)
+                    sleeps = any(pp and pp.endswith("time::sleep") for q in cand for _bi, _t, pp in q.calls())
+                    if reads and sleeps:
+                        sig = (nb, bi, p)
+        if sig:
+            r.ok({"loop": fn, "wait": wait, "raced_against": sig[2], "site": sig[0].where(sig[1])})
+        else:
+            nb, bi = waits[0]
+            r.violate(fn, "loop:parked-forever", nb.where(bi),
+                      "the loop parks in %s() with nothing that wakes it when the port's last registration goes away: task, socket and the "
+                      "bound port stay until somebody connects" % wait)
+    return r
+
+
 def run(ctx):
-    return [r17_1(ctx), r17_2(ctx), r17_3(ctx), r17_4(ctx), r17_5(ctx), r17_6(ctx), r17_7(ctx), r17_8(ctx), r17_9(ctx), r17_10(ctx), r17_11(ctx), r17_12(ctx), r17_13(ctx), r17_14(ctx)]
+    return [r17_1(ctx), r17_2(ctx), r17_3(ctx), r17_4(ctx), r17_5(ctx), r17_6(ctx), r17_7(ctx), r17_8(ctx), r17_9(ctx), r17_10(ctx), r17_11(ctx), r17_12(ctx), r17_13(ctx), r17_14(ctx), r17_15(ctx)]
